@@ -57,7 +57,7 @@ def ztol_of(case):
 def plan_cases(ctx):
     rng = ctx.rng
     quick = ctx.quick
-    reps = (["scalar"] * 6 + ["array1d"] * 6 + ["array2d"] * 3 + ["fun1d"] * 6 + ["fun1d_scalar"] * 3 + ["fun2d"] * 4
+    reps = (["scalar"] * 4 + ["array1d"] * 6 + ["array2d"] * 6 + ["fun1d"] * 5 + ["fun1d_scalar"] * 3 + ["fun2d"] * 4
             + ["mixed1d"] * 4 + ["interp1d"] * 5 + ["interp2d"] * 3 + ["eqmap"] * 4)
     if not quick:
         reps = reps * 12
@@ -65,7 +65,7 @@ def plan_cases(ctx):
     # every Z of the property at least once per run
     zs = list(range(1, 19))
     rng.shuffle(zs)
-    n_multi = n_2d = 0
+    n_multi = n_2d = n_lay1 = n_lay2 = 0
     for i, rep in enumerate(reps):
         stream = "well" if rng.random() < 0.6 else "wide"
         # profile structures (shared n_e/t_e with different donor, shared n_e, shared t_e, constant donor, 2-D separable)
@@ -77,7 +77,15 @@ def plan_cases(ctx):
         elif rep not in ("scalar", "fun1d_scalar"):
             structure = ["same_net", "indep", "const_net", "same_ne", "indep", "same_te", "const_donor", "indep"][n_multi % 8]
             n_multi += 1
-        cases.append(impl.gen_case(rng, i, rep, stream, z=zs[i] if i < 18 else None,
+        # memory layouts of array arguments, dealt round-robin so that every class occurs in every run
+        layout = "C"
+        if rep == "array2d":
+            layout = ["all_F", "all_R", "alone", "all_T", "mixed", "all_S", "C"][n_lay2 % 7]
+            n_lay2 += 1
+        elif rep in ("array1d", "mixed1d"):
+            layout = ["all_R", "C", "alone", "all_S", "mixed", "C"][n_lay1 % 6]
+            n_lay1 += 1
+        cases.append(impl.gen_case(rng, i, rep, stream, layout=layout, z=zs[i] if i < 18 else None,
                                    force_donor=rep in ("eqmap", "interp1d", "interp2d") and i % 2 == 0, structure=structure))
     return cases
 
@@ -219,7 +227,7 @@ def run(ctx):
             seen_net.setdefault((pt["n_e"], pt["t_e"]), set()).add(pt["n_d"])
         dist["points_sharing_ne_te_with_other_donor"] = dist.get("points_sharing_ne_te_with_other_donor", 0) + sum(
             len(v) for v in seen_net.values() if len(v) > 1)
-        for key in ("neut_class", "form", "call_form", "element_name"):
+        for key in ("neut_class", "form", "call_form", "element_name", "layout"):
             dist.setdefault(key, {})
             dist[key][str(case.get(key))] = dist[key].get(str(case.get(key)), 0) + 1
         dist.setdefault("n_points", {})
